@@ -120,7 +120,7 @@ impl Cfg {
             reserved: *rng.pick(&[0, 0, 0, 1, 5, 7, 8, 9, 16, 33]),
             min_seg: *rng.pick(&[0, 1, 8, 8, 20, 20, 48]),
             max_align: *rng.pick(&[1usize, 8, 8, 16, 64]),
-            retries: rng.range(1, 5) as u8,
+            retries: *rng.pick(&[0u8, 1, 1, 2, 3, 4, 5, 5]),
             magic: *rng.pick(&[0u16, 0, 1, 0xBEEF]),
             offset: 0,
         }
